@@ -52,6 +52,7 @@ type Prog struct {
 	fiCache  map[*ssa.Function]*FuncInfo
 	fiDeep   map[*ssa.Function]*FuncInfo
 	modCache map[*ssa.Function]map[memKey]bool
+	globals  map[*ssa.Global]*globalInit
 }
 
 func goEnv(extra ...string) []string {
